@@ -339,7 +339,8 @@ pub fn e2_put<S: Src, const K1: usize, const K2: usize, const KE: usize>(s: &mut
     cv!(s, admitted, "e2_put: admitted");
     cv!(s, !admitted, "e2_put: rejected");
     match outcome {
-        InsertOutcome::NotInserted => {
+        // any outcome that is not `Inserted` means "not stored" (a new variant must not break the harness build)
+        o if !matches!(o, InsertOutcome::Inserted { .. }) => {
             ck!(s, !admitted, "the store rejects an entry only if an entry by the same author at its key or at a prefix of it is not older");
             ck!(s, n == 2 && has(&v1) && has(&v2), "a rejected entry changes nothing");
         }
@@ -353,6 +354,8 @@ pub fn e2_put<S: Src, const K1: usize, const K2: usize, const KE: usize>(s: &mut
                 "exactly the same-author entries whose key starts with the new key and that are not newer are removed; other authors and lexical neighbours are untouched");
             ck!(s, n == 3 - want_removed, "nothing else is added or removed");
         }
+        #[allow(unreachable_patterns)]
+        _ => {}
     }
     std::mem::forget(store);
 }
